@@ -11,9 +11,9 @@ RULE = ("transcripts with 0-6 exons and 0-4 CDS (and UTRs for the thin mode) on 
         "ascending, descending or shuffled file order, blocks spanning the transcript or not (ValueError expected), name "
         "field present / absent, scores '.' or numeric, colours with spaces; bed12 called with the id and with the Feature "
         "(both must agree), thick / thin / custom block types; convert.to_bed12; len() on features incl. '.' coordinates; "
-        "sequence(): random ACGTN references, all (start,end) incl. ends of the record, both strands, use_strand on/off "
+        "sequence(): random references over ACGTN and the IUPAC ambiguity codes in both cases, all (start,end) incl. ends of the record, both strands, use_strand on/off "
         "through pyfaidx.  non-trivial = bed12 line with >= 2 blocks or an error; distinct by (#blocks, #thick, mode, outcome)")
-ASSUMPTIONS = ["pyfaidx: record[start-1:stop] is the plain slice; reverse complement over ACGTN/acgtn",
+ASSUMPTIONS = ["pyfaidx: record[start-1:stop] is the plain slice; reverse complement by pyfaidx.complement_map (ACGTN + IUPAC codes)",
                "children ordered by start have distinct starts in the generated transcripts (ties are unordered in SQL)"]
 
 
@@ -27,7 +27,15 @@ def gen_tx(rng):
         ee = es + rng.randrange(0, 40)
         exons.append([es, ee])
         pos = ee + 1
-    e = exons[-1][1] if exons and rng.random() < 0.9 else (pos + rng.randrange(0, 20))
+    if len(exons) >= 1 and rng.random() < 0.2:
+        # a block nested in / overlapping an earlier one: the last block by start then ends before the transcript end
+        a, b = exons[rng.randrange(len(exons))]
+        if b - a >= 2:
+            na = a + rng.randrange(1, b - a)
+            nb = rng.randrange(na, b + rng.choice([0, 0, 3]))
+            exons = sorted(exons + [[na, nb]])
+            exons = [x for i, x in enumerate(exons) if i == 0 or x[0] != exons[i - 1][0]]
+    e = max(x[1] for x in exons) if exons and rng.random() < 0.9 else (pos + rng.randrange(0, 20))
     e = max(e, s)
     cds = []
     if exons and rng.random() < 0.7:
@@ -60,7 +68,7 @@ def gen_cases(rng, tier):
                       "seed": rng.randrange(1 << 30)})
     for i in range(n):
         ln = rng.choice([1, 5, 30, 80])
-        seq = "".join(rng.choice("ACGTNacgt") for _ in range(ln))
+        seq = "".join(rng.choice("ACGTNacgt" if i % 2 else "ACGTNacgtnYRWSKMDVHBXyrwskmdvhbx") for _ in range(ln))
         s = rng.randrange(1, ln + 1)
         e = rng.choice([s, ln, rng.randrange(s, ln + 1)])
         cases.append({"k": "seq", "seq": seq, "s": s, "e": e, "strand": rng.choice(["+", "-", "."]), "use_strand": rng.random() < 0.7})
@@ -85,7 +93,7 @@ def valid_case(c):
                     last = a
             return tx["order"] in ("asc", "desc", "shuffle") and bool(tx["score"])
         if c["k"] == "seq":
-            return bool(c["seq"]) and all(ch in "ACGTNacgtn" for ch in c["seq"]) and 1 <= c["s"] <= c["e"] <= len(c["seq"]) \
+            return bool(c["seq"]) and all(ch in "ACGTNacgtnYRWSKMDVHBXyrwskmdvhbx" for ch in c["seq"]) and 1 <= c["s"] <= c["e"] <= len(c["seq"]) \
                 and c["strand"] in ("+", "-", ".")
         if c["k"] == "len":
             return True
